@@ -130,6 +130,10 @@ inductive Cov where
   | memory
   /-- per-lane address helper with a `laneID` parameter (FLAT) -/
   | helper
+  /-- per-lane operand read wrapper with a `laneID` parameter in the ALU files (`readF64`: `ReadOperand`, or the
+      binary64 encoding of an inline float constant); the bodies that call it are translated with its result as
+      the operand value -/
+  | operandRead
   /-- a loop inside the lane loop (bit scans, byte permutes) -/
   | innerLoop
   /-- builds a slice and calls the standard library (`sort.Ints` in GCN3/CDNA3 `v_med3_i32`) -/
